@@ -235,6 +235,15 @@ func (in *Interp) checkAssert(c *Term, label string, inKnown *Term, kfID string)
 	in.assume(c)
 }
 
+func (in *Interp) concAssert(c *Term, label string) {
+	if !c.IsConst() {
+		panic(&pathEnd{Kind: "unsupported", Msg: "symbolic assertion in concrete mode"})
+	}
+	if c.IsFalse() {
+		in.concFailures = append(in.concFailures, label)
+	}
+}
+
 func (in *Interp) knownHit(id string) bool {
 	for _, k := range in.H.Known {
 		if k.KnownID == id {
@@ -288,9 +297,25 @@ func sanitize(s string) string {
 }
 
 func (in *Interp) newNondet(base string, w int) *Term {
+	if in.concreteGen != nil {
+		name := in.nondetName(base)
+		val := in.concreteGen(name, w) & mask(w)
+		in.concreteAssign[name] = fmt.Sprintf("%#x", val)
+		return BVConst(val, w)
+	}
 	v := NewVar(in.nondetName(base), BVSort(w))
 	in.nondets = append(in.nondets, v)
 	return v
+}
+
+func labelArg(v V) string {
+	b := []byte(strArg(v))
+	for i, c := range b {
+		if c == '|' || c == ',' || c == '\n' {
+			b[i] = '_'
+		}
+	}
+	return string(b)
 }
 
 func strArg(v V) string {
@@ -343,6 +368,12 @@ func registerHarnessIntrinsics(in *Interp, pkgPath string) {
 	})
 	reg("verifChoose", func(in *Interp, fr *Frame, a []V) V {
 		n := in.concInt(a[1], "verifChoose n")
+		if in.concreteGen != nil {
+			name := in.nondetName(strArg(a[0]))
+			d := int(in.concreteGen(name, 64) % uint64(n))
+			in.concreteAssign[name] = fmt.Sprintf("%#x", d)
+			return BVConst(uint64(d), 64)
+		}
 		d := in.choose(n)
 		in.concNondets[in.nondetName(strArg(a[0]))] = uint64(d)
 		return BVConst(uint64(d), 64)
@@ -352,27 +383,43 @@ func registerHarnessIntrinsics(in *Interp, pkgPath string) {
 		return nil
 	})
 	reg("verifAssert", func(in *Interp, fr *Frame, a []V) V {
-		in.checkAssert(a[0].(*Term), strArg(a[1]), nil, "")
+		if in.concreteGen != nil {
+			in.concAssert(a[0].(*Term), labelArg(a[1]))
+			return nil
+		}
+		in.checkAssert(a[0].(*Term), labelArg(a[1]), nil, "")
 		return nil
 	})
 	reg("verifAssertKF", func(in *Interp, fr *Frame, a []V) V {
-		in.checkAssert(a[0].(*Term), strArg(a[1]), a[2].(*Term), strArg(a[3]))
+		if in.concreteGen != nil {
+			in.concAssert(a[0].(*Term), labelArg(a[1]))
+			return nil
+		}
+		in.checkAssert(a[0].(*Term), labelArg(a[1]), a[2].(*Term), strArg(a[3]))
 		return nil
 	})
 	reg("verifReach", func(in *Interp, fr *Frame, a []V) V {
-		in.H.Reached[strArg(a[0])] = true
+		if in.concreteGen != nil {
+			in.concReached = append(in.concReached, labelArg(a[0]))
+			return nil
+		}
+		in.H.Reached[labelArg(a[0])] = true
 		return nil
 	})
 	reg("verifTier", func(in *Interp, fr *Frame, a []V) V { return BVConst(uint64(in.TierN), 64) })
 	reg("verifB2I", func(in *Interp, fr *Frame, a []V) V {
 		return Ite(a[0].(*Term), BVConst(1, 64), BVConst(0, 64))
 	})
-	reg("verifSymbolic", func(in *Interp, fr *Frame, a []V) V { return TrueT })
+	reg("verifSymbolic", func(in *Interp, fr *Frame, a []V) V { return BoolT(in.concreteGen == nil) })
 	// 128-bit helpers for specs
 	reg("verifMulFitsInt64", func(in *Interp, fr *Frame, a []V) V {
 		x, y := Sext(a[0].(*Term), 128), Sext(a[1].(*Term), 128)
 		p := BV2(OpBVMul, x, y)
 		return Eq(p, Sext(Extract(p, 63, 0), 128))
+	})
+	reg("verifMulAddEqInt64", func(in *Interp, fr *Frame, a []V) V {
+		q, b, r, x := Sext(a[0].(*Term), 128), Sext(a[1].(*Term), 128), Sext(a[2].(*Term), 128), Sext(a[3].(*Term), 128)
+		return Eq(BV2(OpBVAdd, BV2(OpBVMul, q, b), r), x)
 	})
 	reg("verifMulFitsUint64", func(in *Interp, fr *Frame, a []V) V {
 		x, y := Zext(a[0].(*Term), 128), Zext(a[1].(*Term), 128)
